@@ -53,11 +53,11 @@ def gen_cases(tier, rng):
                           "moves": (["sh"] * n_intf) if seed % 2 else (["sh", "sh"] + ["wf"] * (n_intf - 2))[:n_intf],
                           "kind": "single"})
     # deep random runs, more ensembles/workers, caps, multi-engine, restarts
-    nrand = 60 if quick else 300
+    nrand = 110 if quick else 400
     for i in range(nrand):
-        n_intf = rng.choice([3, 4, 5, 6, 7] if quick else [3, 4, 5, 6, 7, 8])
-        w = rng.randint(1, n_intf - 1)
-        steps = rng.randint(w + 8, 40 if quick else 150)
+        n_intf = rng.choice([3, 4, 5, 5, 6, 6, 7, 7] if quick else [3, 4, 5, 6, 7, 8])
+        w = rng.randint(1, n_intf - 1) if i % 2 else rng.randint(2, min(3, n_intf - 1))
+        steps = rng.randint(w + 8, 40 if (quick and i % 3) else 150)
         moves = ["sh", "sh"] + [rng.choice(["sh", "wf"]) for _ in range(n_intf - 2)]
         case = {"n_intf": n_intf, "workers": w, "steps": steps, "seed": rng.randint(0, 10**6),
                 "schedule": [rng.randint(0, w - 1) for _ in range(steps)], "moves": moves, "kind": "random"}
@@ -126,6 +126,13 @@ def oracle_c03(rec, problems):
             jobs.append(jb)
         else:
             res = op["res"]
+            # re-sorting must leave busy slots alone (their paths are being worked on)
+            low = op.get("low", [])
+            if ("sort_begins",) in low and op["pre_sort"] is not None:
+                busy = op["pre_sort"]["locks"]
+                for x in low[low.index(("sort_begins",)) + 1:]:
+                    if x[0] == "swap" and (busy[x[1]] or busy[x[2]]):
+                        problems.append(f"op {idx}: re-sorting swapped slot {x[1]} with slot {x[2]} although one of them is busy (busy flags {busy})")
             hit = [k for k, j in enumerate(jobs) if j["pin"] == res["pin"]]
             if len(hit) != 1:
                 problems.append(f"op {idx}: completed job with pin {res['pin']} matches {len(hit)} in-flight jobs")
